@@ -287,6 +287,40 @@ def check_tables(program, rep):
               line=ih.node.lineno)
 
 
+def check_fresh_sets(program, rep, rule='C03.tables'):
+    """Every event name owns its own listener container: no construct in the
+    dispatcher files ONE mutable object under several keys."""
+    disp = evrules.dispatcher_class(program)
+    n = 0
+    for m in disp.methods.values():
+        for c in ast.walk(m.node):
+            shared = None
+            if isinstance(c, ast.Call) and isinstance(
+                    c.func, ast.Attribute) and c.func.attr == 'fromkeys' \
+                    and len(c.args) == 2 and not (
+                        isinstance(c.args[1], ast.Constant)
+                        or (isinstance(c.args[1], ast.Call) and dotted(
+                            c.args[1].func) in ('frozenset', 'tuple'))
+                        or isinstance(c.args[1], ast.Tuple)):
+                shared = c.args[1]
+            if isinstance(c, ast.DictComp) and isinstance(c.value, ast.Name) \
+                    and not any(isinstance(x, ast.Name) and x.id == c.value.id
+                                for g in c.generators
+                                for x in ast.walk(g.target)):
+                shared = c.value
+            if shared is not None:
+                n += 1
+                rep.bad(rule, m.where, c,
+                        f'one mutable object ({norm(shared)}) is filed under '
+                        'every key: all event names share a single listener '
+                        'container, so a handler registered for one event is '
+                        'called for the others too', line=c.lineno)
+    if n == 0:
+        rep.ok(rule, f'{disp.module.relpath}:EventDispatcher',
+               'listener containers', 'no construct files one mutable '
+               'container under several event names', nontrivial=False)
+
+
 def check_unknown(program, rep):
     f = program.method('EventDispatcher', 'dispatch', inherited=False)
     ev = f.params()[1]
@@ -298,6 +332,12 @@ def check_unknown(program, rep):
         for e in ex.state.trace:
             if e.kind == 'cond' and e.sym.text == f'{ev} in {EVENTS}':
                 known = e.extra
+            if e.kind == 'call' and e.sym is not None and \
+                    evrules.is_delivery(e) and known is True:
+                # a callback may remove handlers / clear the dispatcher: what
+                # was known about the keys of _events is gone
+                known = 'stale'
+                continue
             texts = []
             if e.sym is not None and e.kind in ('for', 'call', 'local',
                                                 'cond'):
@@ -319,7 +359,9 @@ def check_unknown(program, rep):
                   'every use of _events[event_name] follows the membership '
                   'test (unknown events return silently)',
                   'dispatch indexes _events[event_name] on a path where the '
-                  'event may be unknown: KeyError instead of a silent no-op',
+                  'event may be unknown (never tested, or tested before a '
+                  'callback ran - callbacks may remove handlers or clear the '
+                  'dispatcher): KeyError instead of a silent no-op',
                   line=getattr(bad.node, 'lineno', None) if bad else None)
 
 
@@ -435,6 +477,7 @@ def _fresh_merge(v, borrowed):
 
 
 def run(program, rep, tier):
+    check_fresh_sets(program, rep)
     evrules.delivery_sites(program, rep, 'C03', {'deliver', 'snapshot',
                                                  'deref'})
     check_tables(program, rep)
